@@ -74,7 +74,9 @@ def f20(scn, rec, res, r):
         continue
       users = [o for o in sub["ops"] if t in o["ins"]]
       name = synth.tname(si, t, len(scn["subs"]))
-      differ = (role == "c" and any(o["kind"] in ("CONCAT", "CONCAT3") for o in users)) or role == "b"
+      # the sharers need different versions of the constant: a concatenation among them (output's parameters), a bias (input x
+      # weight scale of each user), or an operator the quantizer does not know (float copy) next to a quantised one
+      differ = (role == "c" and any(o["kind"] in ("CONCAT", "CONCAT3", "UNSUP", "UNSUP2") for o in users)) or role == "b"
       if len(users) >= 2 and differ and res.count("b'%s'" % name) == 2:
         return True
   return False
